@@ -12,6 +12,7 @@ import (
 	govtypes "github.com/cosmos/cosmos-sdk/x/gov/types"
 	minttypes "github.com/cosmos/cosmos-sdk/x/mint/types"
 	distrtypes "github.com/cosmos/cosmos-sdk/x/distribution/types"
+	slashingtypes "github.com/cosmos/cosmos-sdk/x/slashing/types"
 
 	"cosmossdk.io/math"
 
@@ -137,6 +138,8 @@ func setupProfile(e *Env, o core.RunOpts) error {
 		return setupTransition(e, o)
 	case "C06", "C07", "C15", "C16":
 		return setupFeeds(e, o)
+	case "C02":
+		return setupFuzz(e, o)
 	case "C12":
 		return setupRelay(e, o)
 	case "C14":
@@ -583,6 +586,107 @@ func setupRelay(e *Env, o core.RunOpts) error {
 	e.MaxSteps = e.Ch.Range("cfg.steps", 40, 120)
 	if o.Thorough {
 		e.MaxSteps = e.Ch.Range("cfg.steps", 80, 300)
+	}
+	return nil
+}
+
+// setupFuzz: every honest actor of every profile, the adversarial message generator, parameter churn through governance,
+// several replicas with crash/restart, downtime jailing (validator-set changes).
+func setupFuzz(e *Env, o core.RunOpts) error {
+	tokens := drawValTokens(e, 2, 6)
+	op := drawOracleParams(e)
+	op.OracleRewardPercentage = []uint64{70, 0, 100, 1, 33}[e.Ch.Intn("cfg.eco.opct", 5)]
+	fp := drawFeedsParams(e)
+	fp.CurrentFeedsUpdateInterval = int64(e.Ch.Range("cfg.tunnel.updint", 1, 8))
+	tp := drawTSSParams(e)
+	tp.CreationPeriod = uint64(e.Ch.Range("cfg.tss.creation2", 8, 30))
+	bp := drawBandtssParams(e)
+	bp.RewardPercentage = []uint64{10, 0, 100, 50}[e.Ch.Intn("cfg.eco.tpct", 4)]
+	tup := drawTunnelParams(e)
+	e.Shared["oracle.genesis.params"] = op
+	e.Shared["tss.genesis.params"] = tp
+	e.Shared["bandtss.genesis.params"] = bp
+	e.Shared["bandtss.genesis.current"] = uint64(1)
+	replicas := 2
+	if o.Thorough || e.Ch.Bool("cfg.fuzz.3replicas", 250) {
+		replicas = 3
+	}
+	cfg := world.Config{Seed: o.Seed, ChainID: "simband", ValTokens: tokens, NumUsers: 14, Replicas: replicas, GenesisTime: baseTime}
+	faults := drawFaults(e, true)
+	if faults.Crash == 0 && e.Ch.Bool("cfg.fuzz.crash", 700) {
+		faults.Crash = 25
+	}
+	var accs []*world.Account
+	for i := 0; i < cfg.NumUsers; i++ {
+		accs = append(accs, world.NewAccount(o.Seed, fmt.Sprintf("user%d", i)))
+	}
+	poolSize := 6
+	size := 1 + e.Ch.Intn("cfg.tss.groupsize", 4)
+	thr := uint64(1 + e.Ch.Intn("cfg.tss.threshold", size))
+	pool := NewTSSPool(e, accs[:poolSize])
+	drawMemberBehaviour(e, pool, int(tp.MaxDESize), true)
+	e.Shared["tss.shadow"] = NewTSSShadow(pool)
+	e.Shared["tss.pool"] = pool
+	gcfg := tssGenesisCfg{TSSParams: tp, BandtssParams: bp, GroupMembers: pool.Members[:size], Threshold: thr, InitialDEs: int(tp.MaxDESize)}
+	var dss []dsSpec
+	treas := world.NewAccount(o.Seed, "treasury")
+	for i := 0; i < 3; i++ {
+		dss = append(dss, dsSpec{Fee: sdk.NewCoins(sdk.NewInt64Coin("uband", int64(i))), Treasury: treas, Exec: []byte("x")})
+	}
+	slashMod := func(w *world.World, gs band.GenesisState) {
+		cdc := w.Replicas[0].App.AppCodec()
+		var sg slashingtypes.GenesisState
+		cdc.MustUnmarshalJSON(gs[slashingtypes.ModuleName], &sg)
+		sg.Params.SignedBlocksWindow = int64(e.Ch.Range("cfg.fuzz.window", 6, 30))
+		sg.Params.MinSignedPerWindow = math.LegacyNewDecWithPrec(5, 1)
+		sg.Params.DowntimeJailDuration = 5 * time.Second
+		gs[slashingtypes.ModuleName] = cdc.MustMarshalJSON(&sg)
+	}
+	e.Desc("fuzz: %d replicas, group %d/%d of pool %d, crash=%d", replicas, thr, size, poolSize, faults.Crash)
+	cfg.GenesisMods = append(cfg.GenesisMods, govGenesis(4*time.Second), slashMod, oracleGenesis(e, op, dss), feedsGenesis(fp, []string{"uusd"}), tssGenesis(e, gcfg), tunnelGenesis(tup))
+	w, err := world.New(e.Ch, e.Log, e.St, cfg, o.Scratch)
+	if err != nil {
+		return err
+	}
+	e.W = w
+	w.F = faults
+	for i, m := range pool.Members {
+		m.Acc = w.Users[i]
+	}
+	voters := w.Users[poolSize : poolSize+3]
+	others := w.Users[poolSize+3:]
+	ss := NewStakeShadow(w, []string{"uusd"}, fp.MaxCurrentFeeds)
+	ss.Voters = voters
+	e.Shared["stake.shadow"] = ss
+	e.Shared["feeds.shadow"] = NewFeedsShadow()
+	e.Shared["tunnel.shadow"] = NewTunnelShadow(e, tup, others)
+	gov := &GovActor{}
+	e.Shared["gov"] = gov
+	dkg := &DKGActor{Pool: pool, DeviateP: 100, SilentP: 20, NonMemberP: 30}
+	e.Shared["dkg.actor"] = dkg
+	signals := []string{"CS:BTC-USD", "CS:ETH-USD", "CS:BAND-USD", "X", "CS:A-VERY-LONG-SIGNAL-ID-0123456789", "CS:SOL-USD"}
+	lazy := map[string]int{}
+	for _, v := range w.Vals {
+		lazy[v.Val.String()] = []int{0, 100, 400}[e.Ch.Intn("cfg.feeder.lazy", 3)]
+	}
+	e.Actors = append(e.Actors, gov,
+		&OracleActor{MaxOpen: 3, ReqRate: 200, Scripts: []int{scriptEcho, scriptSimple, scriptNoRet, scriptTrap, scriptBadPre, scriptNoRaw}, NumDS: len(dss), ActivateP: 900, ReactivateP: 250, Byz: 150,
+			TSSEncoder: true, Requesters: voters, FeeLimit: sdk.NewCoins(sdk.NewInt64Coin("uband", 1000), sdk.NewInt64Coin("uusd", 1000))},
+		&StakeActor{Voters: voters, Rate: 200, Denoms: []string{"uusd", "uatom", "uband"}, VaultKeys: []string{"vaultA"}},
+		&VoteActor{Voters: voters, Signals: signals, Rate: 250, WrapP: 60},
+		&FeederActor{Lazy: lazy, ByzP: 60, SkewP: 40},
+		&TSSActor{Pool: pool, ByzP: 120, ReactP: 300, OverDEP: 60},
+		dkg,
+		&TransitionDriver{Pool: pool, Rate: 120, ForceP: 200, MaxSize: 3, OverlapP: 150},
+		&SigRequester{Rate: 250, MaxOpen: 4, Senders: voters, LimitW: []int{70, 10, 10, 10}, RichContent: true, Signals: signals, RollbackP: 60},
+		&TunnelActor{Users: others, Signals: signals, Params: tup, Rate: 350, MaxTunnels: 3},
+		&FeeActor{Users: others, Rate: 150},
+		&FuzzActor{Accounts: append(append([]*world.Account{}, w.Users...), w.Vals[0].Account), Rate: 300 + e.Ch.Intn("cfg.fuzz.rate", 500)},
+		&ParamChurn{Rate: 40 + e.Ch.Intn("cfg.fuzz.churn", 80)})
+	e.Monitors = append(e.Monitors, &C02{})
+	e.MaxSteps = e.Ch.Range("cfg.steps", 60, 160)
+	if o.Thorough {
+		e.MaxSteps = e.Ch.Range("cfg.steps", 80, 260)
 	}
 	return nil
 }
